@@ -246,3 +246,15 @@ def independent_keys_ok(config, lookup):
 @lru_cache(maxsize=None)
 def cached_dict_bad(line, column):
     return {"line": line, "column": column}
+
+
+RESERVED_BAD = (
+    "true"
+    "false"
+    "null"
+)
+RESERVED_OK = ("not", "concatenated")
+MESSAGE_OK = (
+    "Expected a value,"
+    " found nothing."
+)
